@@ -1311,10 +1311,15 @@ func (c *Context) Reduce(d, x *Decimal) (int, Condition, error) {
 		res, err := c.setAsNaN(d, x, nil)
 		return 0, res, err
 	}
-	neg := x.Negative
-	_, n := d.Reduce(x)
+	if x.Form == Infinite {
+		d.Set(x)
+		return 0, 0, nil
+	}
+	// Round first: rounding can create trailing zeros (9.95 -> 10).
+	res := c.round(d, x)
+	neg := d.Negative
+	_, n := d.Reduce(d)
 	d.Negative = neg
-	res := c.round(d, d)
 	res, err := c.goError(res)
 	return n, res, err
 }
